@@ -20,7 +20,7 @@ HOSTS = ["a.com", "www.a.com", "A.com", "fr.a.com", "b.co.uk", "www.b.co.uk", "y
          "localhost", "app.localhost", "1.2.3.4", "xn--bcher-kva.ch", "bücher.ch", "a.zz", "t.me", "bit.ly", "amp-a-com.cdn.ampproject.org"]
 PORTS = ["", ":80", ":443", ":8080"]
 TAILS = ["", "/", "/a/b", "/a/./b/../c", "/index.html", "/p?b=2&a=1", "/p?utm_source=x&q=1#f", "/?url=http%3A%2F%2Fb.c%2Fx", "/watch?v=abc12345678",
-         "/%7Eu/caf%C3%A9?x=%41", "/a b", "/v/s/a.com/x", "/user/status/1234", "/x.pdf", "#!/u/status/1"]
+         "/%7Eu/caf%C3%A9?x=%41", "/a b", "/a b%C3%A9/c?x=1 2%C3%A9#/r t%C3%A9", "/v/s/a.com/x", "/user/status/1234", "/x.pdf", "#!/u/status/1"]
 
 
 def urls(quick=True):
